@@ -64,19 +64,23 @@ def form_value(param, kind, C):
 def cells(tier, seed):
     k = refs.cat(seed)
     sizes = [(3, 3), (2, 3)] if tier == "quick" else [(2, 3), (3, 3), (4, 2)]
-    nliks = (1, 2) if tier == "quick" else (1, 2, 3)
+    nliks = (1, 2, 3, 4)
     for iface in ("exp", "legacy"):
         for (m, n) in sizes:
             for nl in nliks:
                 for backing in ("matrix", "function"):
                     for p in PARAMS:
                         for kd in KINDS:
+                            if tier == "quick" and nl > 2 and not ((m, n) == (2, 3) and (kd == "dense" or (p, kd) == ("cov", "scalar"))):
+                                # quick: three and four likelihoods on the smallest size, dense form of every
+                                # parameterisation + the scalar covariance (reduced prior-form subset inside the cell)
+                                continue
                             yield {"sampler": "RTO", "iface": iface, "m": m, "n": n, "nlik": nl, "backing": backing,
                                    "lik": [p, kd], "cat": k, "tier": tier}
                             if nl > 1 and (tier != "quick" or kd in ("dense", "scalar")):
                                 # several likelihoods with DIFFERENT numbers of observations (m, m+1, m-1 ...)
                                 yield {"sampler": "RTO", "iface": iface, "m": m, "n": n, "nlik": nl, "backing": backing,
-                                       "lik": [p, kd], "cat": k, "tier": tier, "msizes": [max(1, m + d) for d in (0, 1, -1)][:nl]}
+                                       "lik": [p, kd], "cat": k, "tier": tier, "msizes": [max(1, m + d) for d in (0, 1, -1, 2)][:nl]}
         # one size above the sparse-storage switch of the Gaussian (dim > 75): dense/vector forms of every parameterisation
         for p in PARAMS:
             for kd in (("dense",) if tier == "quick" else ("dense", "vector", "scalar")):
@@ -87,6 +91,20 @@ def cells(tier, seed):
         for order in ((1,) if tier == "quick" else (1, 2)):
             yield {"sampler": "RTO", "iface": iface, "m": 30, "n": 40, "nlik": 1, "backing": "matrix",
                    "lik": ["cov", "scalar"], "prior_only": ["gmrf", order], "cat": k, "tier": tier}
+        # GMRF priors on 1-D and on 2-D (N x N image) grids that CO-EXIST in one process: both layouts of the same total
+        # dimension are built (in either order, with decoys of other boundary condition / order / node count in between)
+        # and both must give exact draws
+        for N in (2, 3):
+            for order in (0, 1, 2):
+                for first in ("1d", "2d"):
+                    for nl in ((1, 3) if tier == "quick" else (1, 2, 3, 4)):
+                        for backing in ("matrix", "function"):
+                            for lik in ((("cov", "scalar"), ("prec", "dense")) if tier == "quick" else [(p, kd) for p in PARAMS for kd in ("scalar", "dense")]):
+                                if N == 3 and (nl > 1 or lik[1] == "dense") and (tier == "quick" or nl in (2, 4)):
+                                    continue
+                                yield {"sampler": "RTO", "pair": True, "iface": iface, "N": N, "order": order, "first": first, "m": 3,
+                                       "nlik": nl, "backing": backing, "lik": list(lik), "cat": k, "tier": tier,
+                                       "msizes": [3, 4, 2, 1][:nl]}
         for (m, n) in sizes:
             for p in PARAMS:
                 yield {"sampler": "RTO5", "iface": "legacy" if iface == "legacy" else "exp", "m": m, "n": n,
@@ -167,7 +185,143 @@ def noise_dim(iface, cls_name, target, n, **kw):
 def eval_cell(cell):
     if cell["sampler"] == "UGLA":
         return eval_ugla(cell)
+    if cell.get("pair"):
+        return eval_gmrf_pair(cell)
     return eval_rto(cell)
+
+
+def make_model_on(A, backing, layout, N):
+    """Linear model of matrix A on a 1-D domain of A.shape[1] nodes or on an N x N image (the library hands an image-shaped
+    array to a model on an image geometry, so the 2-D model is the function-backed one acting on the flattened image)."""
+    import cuqi
+    if layout == "1d":
+        return make_model(A, backing)
+    geom = cuqi.geometry.Image2D((N, N))
+    return cuqi.model.LinearModel(lambda X: A @ np.asarray(X).ravel(), lambda y: (A.T @ y).reshape(N, N),
+                                  range_geometry=A.shape[0], domain_geometry=geom)
+
+
+def eval_gmrf_pair(cell):
+    """Two GMRF priors of the same total dimension N*N - one on a 1-D grid of N*N nodes, one on an N x N image - are built in
+    ONE process in the order given by the cell, with decoy fields (other boundary condition, other order, 1-D with N nodes)
+    built in between; afterwards BOTH must give exact draws for their own posterior (reference precision: prec * D^T D with the
+    1-D difference matrix, resp. prec * (D1^T D1 + D2^T D2) with the Kronecker-stacked operators)."""
+    import cuqi
+    res = CellResult(cell)
+    k, N, order, iface, m = cell["cat"], cell["N"], cell["order"], cell["iface"], cell["m"]
+    nl, backing = cell["nlik"], cell["backing"]
+    lp, lk = cell["lik"]
+    n = N * N
+    comp = "%s.LinearRTO" % iface
+    ms = cell["msizes"]
+    As = [refs.full_matrix(ms[i], n, k + 3 * i) for i in range(nl)]
+    ds = [refs.dyadic_vec(ms[i], k + i, scale=0.25) for i in range(nl)]
+    Cls = [base_cov(lk, ms[i], k, salt=i) for i in range(nl)]
+    precs = {"1d": [2.0, 0.5, 3.0][k], "2d": [0.75, 1.5, 0.25][k]}
+    means = {"1d": refs.dyadic_vec(n, k + 1, scale=0.25), "2d": refs.dyadic_vec(n, k + 2, scale=0.125)}
+    Dref = {"1d": refs.fd_ref(n, "zero", order, 1), "2d": refs.fd_ref(N, "zero", order, 2)}
+
+    def geom(layout, nodes=None):
+        return (nodes or n) if layout == "1d" else cuqi.geometry.Image2D((N, N))
+
+    def build(layout):
+        return cuqi.distribution.GMRF(means[layout], precs[layout], bc_type="zero", order=order, geometry=geom(layout), name="x")
+
+    second = "2d" if cell["first"] == "1d" else "1d"
+    priors = {}
+    try:
+        priors[cell["first"]] = build(cell["first"])
+        # decoys (never used afterwards): same dimension with another boundary condition / another order in both layouts, and
+        # the 1-D field with N nodes; a decoy the library refuses to build is simply absent
+        for lay, bc, od, nodes in [(second, "neumann", order, None), (second, "periodic", order, None),
+                                   ("1d", "zero", (order + 1) % 3, None), ("2d", "zero", (order + 1) % 3, None),
+                                   ("1d", "zero", order, N)]:
+            try:
+                cuqi.distribution.GMRF(np.zeros(nodes or n), 1.25, bc_type=bc, order=od, geometry=geom(lay, nodes))
+                res.count("decoy-built")
+            except Exception as e:
+                res.outcomes.add("decoy-refused:%s,%s,%d:%s" % (lay, bc, od, type(e).__name__))
+        priors[second] = build(second)
+    except Exception as e:
+        res.refused += 1
+        res.outcomes.add("refused:%s" % type(e).__name__)
+        res.nontrivial = False
+        return res
+    nontriv = False
+    bad = []
+    for layout in (cell["first"], second):
+        x = priors[layout]
+        try:
+            ys = [cuqi.distribution.Gaussian(make_model_on(As[i], backing, layout, N)(x), name="y%d" % i, **{lp: form_value(lp, lk, Cls[i])})
+                  for i in range(nl)]
+            target = cuqi.distribution.JointDistribution(x, *ys)(**{"y%d" % i: ds[i] for i in range(nl)})
+            nd, s0 = noise_dim(iface, "LinearRTO", target, n)
+        except Exception as e:
+            res.refused += 1
+            res.outcomes.add("refused:%s:%s" % (layout, type(e).__name__))
+            continue
+        res.state("gmrf-%s,order=%d,built-%s" % (layout, order, "first" if layout == cell["first"] else "second"))
+        P0 = precs[layout] * Dref[layout].T @ Dref[layout]
+        H = P0.copy()
+        rhs = P0 @ means[layout]
+        for i in range(nl):
+            Li = np.linalg.inv(Cls[i])
+            H = H + As[i].T @ Li @ As[i]
+            rhs = rhs + As[i].T @ Li @ ds[i]
+        cov_ref = np.linalg.inv(H)
+        mean_ref = cov_ref @ rhs
+        x0s = [np.zeros(n), refs.dyadic_vec(n, k + 5, scale=0.5) * 2.0 ** 22]
+        maps = []
+        try:
+            for x0 in x0s:
+                maps.append(affine_probe(lambda e: one_step(iface, "LinearRTO", target, x0, e)[0], nd))
+                res.transitions += nd + 2
+        except Exception as e:
+            res.fail("C06|%s|step-raises|prior=GMRF-%s" % (comp, layout), "step raised %r on an accepted posterior" % (e,), focus={"layout": layout})
+            continue
+        res.traces += 1
+        res.evaluations += 1
+        z0, T, aff = maps[0]
+        nontriv = nontriv or np.abs(T).max() > 0
+        z0b, Tb, affb = maps[1]
+        tol_st = max(1e-7, 1e3 * TOL * float(np.linalg.norm(x0s[1])))
+        why = None
+        if not (aff and affb):
+            why = "the draw is not an affine function of the perturbation"
+        elif not close(z0, mean_ref, 1e-7):
+            why = "offset of the draw %s != posterior mean %s" % (z0, mean_ref)
+        elif not close(T @ T.T, cov_ref, 1e-7):
+            why = "linear part does not reproduce the posterior covariance"
+        elif not (close(z0b, z0, tol_st, atol=tol_st) and close(Tb, T, tol_st, atol=tol_st)):
+            why = "draw depends on the current state"
+        res.outcomes.add("gmrf-%s,order=%d:%.4g:%s" % (layout, order, float(z0[0]), why is None))
+        if why is not None:
+            bad.append((layout, why))
+        # stacked operator: adjoint is the exact transpose of the forward action
+        try:
+            M = s0.M
+            if callable(M):
+                F = np.array([np.asarray(M(np.eye(n)[:, i], 1)).ravel() for i in range(n)]).T
+                G = np.array([np.asarray(M(np.eye(nd)[:, j], 2)).ravel() for j in range(nd)]).T
+            else:
+                Md = np.asarray(M.todense()) if hasattr(M, "todense") else np.asarray(M)
+                F, G = Md, Md.T
+            res.transitions += n + nd
+            if not close(F, G.T, 1e-10):
+                res.fail("C06|%s|stacked-adjoint|prior=GMRF-%s" % (comp, layout), "stacked operator's adjoint is not the transpose of its forward action",
+                         focus={"layout": layout})
+        except AttributeError:
+            pass
+        if res.sample is None:
+            res.sample = {"layout": layout, "order": order, "offset": z0, "posterior_mean": mean_ref, "TTt": T @ T.T, "posterior_cov": cov_ref}
+    if bad:
+        # ONE signature whichever member of the pair is wrong (which one it is may depend on what was built earlier in the process)
+        res.fail("C06|%s|gmrf-1d-2d-pair|order=%d" % (comp, order),
+                 "of two zero-boundary GMRF priors with %d unknowns built in one process (1-D grid of %d nodes and %d x %d image; %s first), "
+                 "LinearRTO does not give exact draws for: %s" % (n, n, N, N, cell["first"], "; ".join("%s (%s)" % b for b in bad)),
+                 focus={"not-exact": [b[0] for b in bad], "built-first": cell["first"]})
+    res.nontrivial = nontriv
+    return res
 
 
 def eval_rto(cell):
